@@ -723,7 +723,11 @@ func (p *Printer) symbol(s model.Sym, inSexp bool, isAnnotation bool) {
 	}
 	if ids := p.tab.FindAll(s.Text); len(ids) > 0 && (oneIn == 1 || p.rarely("symbol.sid-spelling", oneIn)) {
 		// a top-level bare $2 ... is still a symbol ID reference, fine
-		p.w("$" + strconv.Itoa(ids[p.C.Intn(len(ids))]))
+		id := strconv.Itoa(ids[p.C.Intn(len(ids))])
+		if p.rarely("symbol.sid-leading-zeros", 6) {
+			id = []string{"0", "00", "000"}[p.C.Intn(3)] + id // $010 is symbol ID 10
+		}
+		p.w("$" + id)
 		return
 	}
 	if isIdentifier(s.Text) && !(isIVMShaped(s.Text) && !isAnnotation && !p.bareIVM) {
